@@ -61,6 +61,14 @@ func init() {
 		"reflect.TypeOf":    inReflectTypeOf,
 		"reflect.DeepEqual": inReflectDeepEqual,
 
+		"strconv.AppendFloat": func(x *Exec, fn *ssa.Function, a []Value) Value {
+			f := a[1].(*smt.Term)
+			fm, prec, bits := a[2].(*smt.Term), a[3].(*smt.Term), a[4].(*smt.Term)
+			if !(fm.IsConst() && fm.U == 'g' && prec.IsConst() && prec.Int() == -1 && bits.IsConst() && bits.Int() == 64) {
+				panic(x.unsupported("strconv.AppendFloat with format other than ('g', -1, 64)"))
+			}
+			return x.appendValues(a[0].(SliceV), types.Typ[types.Uint8], []Value{NumTok{F: f}})
+		},
 		"strconv.Itoa": func(x *Exec, _ *ssa.Function, a []Value) Value {
 			t := a[0].(*smt.Term)
 			if !t.IsConst() {
